@@ -1,4 +1,8 @@
 import JadeModel.Proofs.SystemUniqueRows
+import JadeModel.Proofs.SystemUniqueNodeDefs
+import JadeModel.Proofs.SystemUniqueNodeStepA
+import JadeModel.Proofs.SystemUniqueNodeStepB
+import JadeModel.Proofs.SystemUniqueNodeStepC
 
 set_option linter.unusedSimpArgs false
 
@@ -8,47 +12,11 @@ set_option linter.unusedSimpArgs false
 
 namespace Jade.Sys
 
-/-- a job the role holder still lists as NOT_SUBMITTED and has not handed out is in no batch -/
-theorem ns_not_batched {s : Sys} (hi : BatchInv s) {p : Pid} {x : SubP} {j : JobId}
-    (hp : s.procs p = .sub true x) (hpc : x.pc = .marked) (h1 : x.loc.st j = .ns) (h2 : j ∉ x.pend) :
-    ∀ B ∈ s.batches, j ∉ B.jobs := by
-  have := (sbatch_fresh (jobs := [j]) hi hp hpc (by simpa using ⟨h1, h2⟩)).1 j (by simp)
-  intro B hB hj
-  exact this (List.mem_flatMap.2 ⟨B, hB, hj⟩)
-
-macro "frame_nw" : tactic => `(tactic|
-  try simp only [freshHid_some_iff, procs_setSub, procs_setNode, procs_setProc,
-    setSub_fields, setNode_fields, setProc_fields] at *)
-
-/-- node result files -/
-structure NodeW (s : Sys) : Prop where
-  queuedRunning : ∀ p a n, s.procs p = .node a n → ∀ j ∈ n.queued, j ∉ n.running
-  /-- what waits or runs on a node has no row in any node file -/
-  fileQueued : ∀ p a n, s.procs p = .node a n → ∀ j ∈ n.queued, ∀ c : Bid, ∀ r ∈ s.nodeFile c, r.job ≠ j
-  fileRunning : ∀ p a n, s.procs p = .node a n → ∀ j ∈ n.running, ∀ c : Bid, ∀ r ∈ s.nodeFile c, r.job ≠ j
-  filePending : ∀ B ∈ s.batches, ∀ h, B.hid = some h → s.slurm h = some .pending →
-    ∀ j ∈ B.jobs, ∀ c : Bid, ∀ r ∈ s.nodeFile c, r.job ≠ j
-  /-- a row in a node file is for a job of some batch -/
-  fileBatch : ∀ c : Bid, ∀ r ∈ s.nodeFile c, ∃ B ∈ s.batches, r.job ∈ B.jobs
-  uniqN : UniqN s.nodeFile
-
-theorem nodeW_init (sc : Scn) : NodeW (init sc) := by
-  refine ⟨?_, ?_, ?_, ?_, ?_, ⟨?_, ?_⟩⟩ <;> simp [init]
-
-set_option maxHeartbeats 64000000 in
 theorem nodeW_step {s s' : Sys} {op : Op} (hn : NodeInv s) (hi : NodeW s) (h : step s op = some s') :
     NodeW s' := by
-  have hu := @node_job_unique s hn
-  have hm := @mem_unique_batch s.batches hn.batch.jobsNodup
-  have hfr := @ns_not_batched s hn.batch
-  obtain ⟨-, n1, n2, n3, n4, n5, n6, n7, n8⟩ := hn
-  obtain ⟨c1, c2, c3, c4, c5, c6⟩ := hi
-  cases op <;> step_cases h <;> (refine ⟨?_, ?_, ?_, ?_, ?_, ?_⟩ <;> frame_nw)
-  all_goals first
-    | proc_clause
-    | exact c6
-    | exact uniqN_clear c6 _
-    | (refine uniqN_snocNode c6 _ _ ?_; grind)
-    | grind [find?_hid]
+  obtain ⟨c_queuedRunning, c_filePending⟩ := nodeW_step_a hn hi h
+  obtain ⟨c_fileQueued, c_fileBatch⟩ := nodeW_step_b hn hi h
+  obtain ⟨c_fileRunning, c_uniqN⟩ := nodeW_step_c hn hi h
+  exact ⟨c_queuedRunning, c_fileQueued, c_fileRunning, c_filePending, c_fileBatch, c_uniqN⟩
 
 end Jade.Sys
